@@ -1,5 +1,6 @@
 import SppModel.Model.Moments
 import SppModel.Generated.MomentKernels
+import SppModel.Frozen.MomentKernels
 import Mathlib.Tactic.Ring
 import Mathlib.Tactic.FieldSimp
 /-!
@@ -16,21 +17,21 @@ theorem moments_translated : Generated.MomentKernels.translationFailures = [] :=
 theorems below prove that the hand model `update` / `updateBasic` / `merge` computes exactly those
 expressions, so an edit of a coefficient, a sign or an operand in the source breaks one of them. -/
 
-open Generated.MomentKernels in
+open Frozen.MomentKernels in
 theorem update_is_source (s : Mom) (x : ℚ) :
     update_moments x s.m1 s.m2 s.m3 s.m4 s.n
       = ((update s x).m1, (update s x).m2, (update s x).m3, (update s x).m4, (update s x).n) := by
   simp only [update_moments, update]
   try (refine Prod.ext ?_ (Prod.ext ?_ (Prod.ext ?_ (Prod.ext ?_ ?_))) <;> (try simp) <;> (try ring))
 
-open Generated.MomentKernels in
+open Frozen.MomentKernels in
 theorem updateBasic_is_source (s : Mom) (x : ℚ) :
     update_moments_basic x s.m1 s.m2 s.n
       = ((updateBasic s x).m1, (updateBasic s x).m2, (updateBasic s x).n) := by
   simp only [update_moments_basic, updateBasic]
   try (refine Prod.ext ?_ (Prod.ext ?_ ?_) <;> (try simp) <;> (try ring))
 
-open Generated.MomentKernels in
+open Frozen.MomentKernels in
 theorem merge_is_source (a b : Mom) (amn amx bmn bmx : ℚ) :
     add_online_moments a.n b.n a.m1 a.m2 a.m3 a.m4 amn amx b.m1 b.m2 b.m3 b.m4 bmn bmx
       = ((merge a b).n, (merge a b).m1, (merge a b).m2, (merge a b).m3, (merge a b).m4, min amn bmn, max amx bmx) := by
@@ -40,8 +41,8 @@ theorem merge_is_source (a b : Mom) (amn amx bmn bmx : ℚ) :
 /-- the per-channel loop of both kernels: one scalar update per sample, in sample order, sample `isamp`
     of channel `ichan` at `isamp * nchans + ichan` (the shape `push` = `foldl update` models) -/
 theorem kernel_loop_shape :
-    Generated.MomentKernels.compute_online_moments_shape = ("update_moments", "isamp * nchans + ichan") ∧
-    Generated.MomentKernels.compute_online_moments_basic_shape = ("update_moments_basic", "isamp * nchans + ichan") := by
+    Frozen.MomentKernels.compute_online_moments_shape = ("update_moments", "isamp * nchans + ichan") ∧
+    Frozen.MomentKernels.compute_online_moments_basic_shape = ("update_moments_basic", "isamp * nchans + ichan") := by
   decide +kernel
 
 
